@@ -688,6 +688,9 @@ impl Engine for ConcurrentDraws {
         ConcurrentTrace { cfg, tasks, sched: SchedSpec::generate(&mut rng, n_tasks as u32), schedule: vec![] }
     }
     fn execute(&self, t: &mut ConcurrentTrace, stats: &mut Stats) -> Verdict {
+        // one-off initialisation (building the synthetic fonts compiles tables and would pass
+        // through the object-id scheduling point) must happen outside the simulated execution
+        let _ = pool();
         let results: Arc<Mutex<Vec<(usize, usize, Observed)>>> = Arc::new(Mutex::new(Vec::new()));
         let tt = t.clone();
         let res = results.clone();
